@@ -50,7 +50,10 @@ CLAIMS = {
          "Coproc_Accepted() for the generic coprocessors (NSACR/CPACR by privilege and security state, HCPTR traps with the Virtualization "
          "Extensions) as a function-level unit, and at step level the coprocessor transfer hooks are reached only through it (post.gate); "
          "SVC/SMC outcome and entry, hints and barriers (mock hook reached only when the condition passes, state untouched), UDF, IT, "
-         "ENTERX/LEAVEX by step-level rows; the exception-entry units (C11) belong to this check. cp14/cp15 register-level gating is NOT covered. Known finding: MRS CPSR in "
+         "ENTERX/LEAVEX by step-level rows; the exception-entry units (C11) belong to this check. The CP14 and CP15 branches of Coproc_Accepted() "
+         "(instruction form, opc1 / CRn spaces, the User-mode ThumbEE register rules, HSTR.T<n> / HSTR.TTEE / HCR.TIDCP traps with syndrome and "
+         "trap entry) as two more function-level units, the register-space decode hooks and InstrIsPL0Undefined() (mocks of the "
+         "implementation) under the contract 'an arbitrary boolean, no state change'; two regions are left open there and named in DESIGN 14.17. Known finding: MRS CPSR in "
          "privileged modes returns only the APSR bits (pinned by a test).", "DESIGN.md 10 C12, 14.12"),
  'C13': ("mem_a_with_priv_get/set, mem_u_with_priv_get/set, the six wrappers (sizes 1,2,4,8) and fetch_instruction interpreted over an "
          "abstract translation (any PA, any fault pattern) and an abstract physical hub: per path the exact sequence of translations and "
@@ -75,7 +78,12 @@ CLAIMS = {
          "AP/APX checks, DFSR/DFAR reporting, and the MMU-off flat map; (2) Long-descriptor stage-1 walk outside Hyp mode (TTBR0/TTBR1 by "
          "T0SZ/T1SZ, EPD0/1, start level, up to three levels with hierarchical APTable/XNTable/PXNTable/NSTable, blocks and pages, access "
          "flag, AP, MAIR memory type, SH) incl. termination of the lookup loop; for every register setting, address, privilege, direction. "
-         "NOT covered (stated scope): Hyp mode, stage 2 / Virtualization Extensions, SCTLR.HA; Long-descriptor fault *reporting* stops at a "
+         "Both units a second time for configurations with the Virtualization Extensions present and stage 2 inactive (Secure state or HCR.VM == 0; "
+         "HCR.TGE / HCR.DC corners as UNPREDICTABLE, alignment faults of Device memory reported). Hyp mode (HTCR/HTTBR walk) and the second stage "
+         "(VTCR/VTTBR walk, stage 1 walks through stage 2, check_permission_s2, combine_s1s2_desc, s2_attr_decode) have NO functional "
+         "specification: three safety units prove for them no host error, termination of every walk, a 40-bit physical address, "
+         "'a success changes no state, a fault only the fault-reporting registers', no memory write and ownership of the result - the "
+         "property text itself speaks of stage 1 only. Also outside: SCTLR.HA; Long-descriptor fault *reporting* stops at a "
          "mock hook (NotImplementedError), so there only 'a fault is raised exactly when specified' is proved; SCTLR.TRE == 0 likewise.",
          "DESIGN.md 14.13"),
  'C16': ("MemoryControllerHub.__getitem__/__setitem__ with MemoryController/RAM/to_int/from_int inlined, over controller lists of "
@@ -91,12 +99,12 @@ CLAIMS = {
          "every ValidState, mode and configuration, emulate_cycle returns, takes an architectural exception, or raises "
          "NotImplementedError; every potential host error (attribute/type/index/key/assertion/unbound-local/struct/value/zero-division) "
          "is an explicit path that must be infeasible, UNPREDICTABLE paths included; the same for the memory path below the accessor contracts "
-         "(accessors, fetch, translation PMSA/VMSA stage 1 outside Hyp mode, hub) and for steps starting with CPSR.J = 1. NOT covered: "
-         "Hyp-mode and stage-2 translation (the C15 units exclude them; a host error there, HTCR.rgn0, was found by a reader and repaired).", "DESIGN.md 10 C18"),
+         "(accessors, fetch, translation PMSA/VMSA incl. Hyp mode and the second stage through the safety units of C15, hub) and for steps starting "
+         "with CPSR.J = 1. The stage 2 unit found the host error repaired in 36a4654 (reserved VTCR.SL0); the Hyp-mode unit re-finds 08942de when that fix is reverted.", "DESIGN.md 10 C18"),
  'C19': ("Whole-step proof for every instruction word with CPSR.M = User: afterwards still User with A/I/F, all other modes' banked "
          "registers and SPSRs and every system register unchanged, or an architectural exception was entered with SPSR.M = User; last clause: "
          "the unprivileged load/store rows (LDRT..STRHT) functionally, the privilege of every translation request of the accessors "
-         "(post.priv), frames of the memory path, coprocessor gating (post.gate, Coproc_Accepted unit).",
+         "(post.priv), frames of the memory path, coprocessor gating (post.gate, the three Coproc_Accepted units incl. the User-mode CP14/CP15 rules).",
          "DESIGN.md 10 C19"),
  'C02': ("Every single-register load/store encoding in the table (about 170: LDR/STR/LDRB/STRB/LDRH/STRH/LDRSB/LDRSH/LDRD/STRD, immediate, "
          "literal, register and unprivileged forms, ARM A1/A2 and Thumb T1-T4) proved equal, leaf by leaf over the whole machine state and "
